@@ -213,4 +213,100 @@ def viewToken (vs : List (SName × SVal)) : TokenAcc :=
   ⟨getKey vs .mint, getKey vs .owner, getNum vs .amount, getOptKey vs .delegate, getNum vs .state,
    getOptNum vs .is_native, getNum vs .delegated_amount, getOptKey vs .close_authority⟩
 
+/-! ## `validate_mint` / `validate_token` (the `validate_mint` / `validate_token` validation ids)
+
+`#[validate(id = "validate_mint", arg = ValidateMint, extra_validation = { self.validate()?; self.validate_mint(arg) })]`:
+the view test above, then comparisons on the zero-copy data. The comparisons on `PodOption` fields are the
+derived `PartialEq` of the packed struct (`option` and `value` both equal) against `PodOption::some(key)`,
+and `is_some()` (`option == SOME`) — they read the raw cell, so stale payload bytes under a `NONE` tag
+(the SPL program clears only the tag) are in scope. -/
+
+/-- Offset of a field in a packed struct: the sizes of the fields declared before it. -/
+def fieldOffset (n : SName) : List (SName × STy) → Nat
+  | [] => 0
+  | (k, ty) :: fs => if n = k then 0 else ty.size + fieldOffset n fs
+
+/-- The raw `(option, value)` parts of the `PodOption<T>` field `n` (`size_of::<T>() = v`). -/
+def podCell (fields : List (SName × STy)) (b : List Nat) (n : SName) (v : Nat) : List Nat × List Nat :=
+  podParts v (slice b (fieldOffset n fields) (podSize v)) Generated.podOptionLayout 0 ([], [])
+
+/-- `cell == PodOption::some(k)` (derived `PartialEq`: `option == SOME && value == k`). -/
+def podEqSome (c : List Nat × List Nat) (k : Key) : Bool := c.1 == Generated.podSome && c.2 == k
+
+/-- `cell.is_some()`. -/
+def podIsSome (c : List Nat × List Nat) : Bool := c.1 == Generated.podSome
+
+/-- `FreezeAuthority<'a>`. -/
+inductive FreezeArg where
+  | any | none | some (k : Key)
+  deriving DecidableEq, Repr
+
+/-- `ValidateMint<'a>`. -/
+structure ValidateMintArg where
+  decimals : Option Nat
+  authority : Option Key
+  freeze : FreezeArg
+  deriving DecidableEq, Repr
+
+/-- `ValidateToken`. -/
+structure ValidateTokenArg where
+  mint : Option Key
+  owner : Option Key
+  deriving DecidableEq, Repr
+
+inductive ValErr where
+  /-- `self.validate()` failed -/
+  | view (e : ViewErr)
+  /-- `bail!(ProgramError::InvalidAccountData, …)` of `validate_mint` / the mint test of `validate_token` -/
+  | invalidAccountData
+  /-- `bail!(ProgramError::IncorrectAuthority, …)`: the owner test of `validate_token` -/
+  | incorrectAuthority
+  deriving DecidableEq, Repr
+
+/-- `MintAccount::validate()?; MintAccount::validate_mint(arg)` in the code's order: decimals, mint
+authority, freeze authority. -/
+def fwValidateMint (ownerOk : Bool) (b : List Nat) (a : ValidateMintArg) : Except ValErr Unit :=
+  match fwMintView ownerOk b with
+  | .error e => .error (.view e)
+  | .ok vs =>
+    if (match a.decimals with | some d => getNum vs .decimals != d | none => false) then
+      .error .invalidAccountData
+    else if (match a.authority with
+        | some k => !podEqSome (podCell Generated.mintFields b .mint_authority 32) k
+        | none => false) then
+      .error .invalidAccountData
+    else match a.freeze with
+      | .any => .ok ()
+      | .none =>
+        if podIsSome (podCell Generated.mintFields b .freeze_authority 32) then .error .invalidAccountData
+        else .ok ()
+      | .some k =>
+        if !podEqSome (podCell Generated.mintFields b .freeze_authority 32) k then .error .invalidAccountData
+        else .ok ()
+
+/-- `TokenAccount::validate()?; TokenAccount::validate_token(arg)`: mint, then owner. -/
+def fwValidateToken (ownerOk : Bool) (b : List Nat) (a : ValidateTokenArg) : Except ValErr Unit :=
+  match fwTokenView ownerOk b with
+  | .error e => .error (.view e)
+  | .ok vs =>
+    if (match a.mint with | some k => getKey vs .mint != k | none => false) then .error .invalidAccountData
+    else if (match a.owner with | some k => getKey vs .owner != k | none => false) then
+      .error .incorrectAuthority
+    else .ok ()
+
+/-- The same predicate on the fields the reference unpacker reports. -/
+def refValidateMint (m : Mint) (a : ValidateMintArg) : Except ValErr Unit :=
+  if (match a.decimals with | some d => m.decimals != d | none => false) then .error .invalidAccountData
+  else if (match a.authority with | some k => m.mintAuthority != some k | none => false) then
+    .error .invalidAccountData
+  else match a.freeze with
+    | .any => .ok ()
+    | .none => if m.freezeAuthority.isSome then .error .invalidAccountData else .ok ()
+    | .some k => if m.freezeAuthority != some k then .error .invalidAccountData else .ok ()
+
+def refValidateToken (t : TokenAcc) (a : ValidateTokenArg) : Except ValErr Unit :=
+  if (match a.mint with | some k => t.mint != k | none => false) then .error .invalidAccountData
+  else if (match a.owner with | some k => t.owner != k | none => false) then .error .incorrectAuthority
+  else .ok ()
+
 end Spl
